@@ -593,6 +593,22 @@ func compareModel(mask int, cs *mcCase, r *mon.Result, m *ref.Result) []diff {
 			if evals > bound {
 				ds = append(ds, diff{"memo-bound", fmt.Sprintf("<= %d evaluations (%d expressions x (%d+1))", bound, cs.u.G.NExprs, len(cs.in)), evals})
 			}
+			// the same clause per offset: at one offset, expressions of one kind cannot be entered more
+			// often than the grammar has expressions of that kind (this sees a repeated evaluation on short
+			// inputs already, long before the global product is exceeded)
+			used := cs.u.G.KindsUsed()
+			if cs.u.G.Raw != "" || cs.u.HasFlag("-optimize-grammar") {
+				used = nil // the expression tree of the generated parser is not the one drawn here
+			}
+			for rt, k := range dbgKindOf {
+				if used == nil {
+					break
+				}
+				if n := r.Dbg.PerKindMax[rt]; n > used[k] {
+					ds = append(ds, diff{"memo-once-per-offset", fmt.Sprintf("<= %d evaluations of %s at one offset (the grammar has %d such expressions)", used[k], rt, used[k]), fmt.Sprintf("%d at offset %d", n, r.Dbg.PerKindOff[rt])})
+					break
+				}
+			}
 		}
 	}
 	if mask&CmpErrTypes != 0 {
@@ -871,4 +887,13 @@ func outerLabelAction(g *gast.Grammar) bool {
 		})
 	}
 	return found
+}
+
+
+// dbgKindOf maps the run time's parse functions (as named in its Debug trace) to expression kinds.
+var dbgKindOf = map[string]gast.Kind{
+	"parseActionExpr": gast.Action, "parseAndCodeExpr": gast.AndCode, "parseAndExpr": gast.And, "parseAnyMatcher": gast.Any,
+	"parseCharClassMatcher": gast.Class, "parseChoiceExpr": gast.Choice, "parseLabeledExpr": gast.Labeled, "parseLitMatcher": gast.Lit,
+	"parseNotCodeExpr": gast.NotCode, "parseNotExpr": gast.Not, "parseOneOrMoreExpr": gast.OneOrMore, "parseRuleRefExpr": gast.RuleRef,
+	"parseSeqExpr": gast.Seq, "parseStateCodeExpr": gast.StateCode, "parseZeroOrMoreExpr": gast.ZeroOrMore, "parseZeroOrOneExpr": gast.ZeroOrOne,
 }
